@@ -206,7 +206,7 @@ func (g *ribGen) entry(o *drv.OpSpec) {
 		case "v4":
 			o.Key = uint64(1 + g.r.Intn(3))
 			if malformed && g.r.Chance(1, 2) {
-				o.Key = uint64(11 + g.r.Intn(5))
+				o.Key = uint64(11 + g.r.Intn(7))
 			}
 		case "v6":
 			o.Key = drv.Pick(g.r, uint64(1), 2, 1, 2, 1, 2, 5, 6)
